@@ -848,6 +848,12 @@ impl TransactionalMemory {
         self.needs_repair.load(Ordering::Acquire)
     }
 
+    // True if a panic unwound while one of the locks was held: nothing that takes them may run
+    // from a destructor any more
+    pub(crate) fn lock_poisoned(&self) -> bool {
+        self.state.is_poisoned() || self.unpersisted.is_poisoned()
+    }
+
     // The in-memory allocator state has been rebuilt from the committed trees, so it can be
     // trusted again
     pub(crate) fn clear_needs_repair(&self) {
